@@ -14,6 +14,8 @@ CONSTANTS
  DevNoAclOn <- NoAclSyncGroup
  DevGateAfterAppend = "none"
  DevLeaseCheckSkipped = FALSE
+ DevFetchAclOnRequestName = FALSE
+ DevStaleOwnedOnSessionReplace = FALSE
 INIT Init
 NEXT Next
 INVARIANTS C24_NoEffect C24_AuthError C24_NoLeak
